@@ -247,6 +247,15 @@ func Exec(c hx.Case) hx.Result {
 						ss[j] = strconv.Itoa(v)
 					}
 					out = "ok [" + strings.Join(ss, " ") + "]"
+					// The caller owns what Values() returns: scribbling on it (and appending to it) must not
+					// reach the queue. An implementation that hands out its own backing array is exposed by
+					// every later op of the case.
+					defer func(vs []int) {
+						for j := range vs {
+							vs[j] = -99
+						}
+						_ = append(vs, -98, -97)
+					}(vs)
 					if len(vs) != len(all) {
 						bad(i, "values has %d entries, want %d", len(vs), len(all))
 					} else {
